@@ -14,6 +14,7 @@ for f in glob.glob(sys.argv[1]+'/out/*/s*/results.jsonl'):
             ex.setdefault(k,(r['i'],v['detail']))
 print(dict(verd))
 n=int(sys.argv[2]) if len(sys.argv)>2 else 1500
-for k,c in cnt.most_common():
+maxc=int(sys.argv[3]) if len(sys.argv)>3 else 12
+for k,c in cnt.most_common(maxc):
     print(c,k)
     if k in ex: print('    case',ex[k][0],ex[k][1][:n].replace('\n','\n    ')); print()
